@@ -40,6 +40,8 @@ import vermouth.forcefield
 from vermouth.molecule import Molecule
 from vermouth.processors.repair_graph import RepairGraph
 
+from pbt import c04_isoshape
+
 PROPERTY = 'C04'
 LEVEL = 'exploration'
 
@@ -811,3 +813,13 @@ PARTS = [
          floors={'symmetric': 0.5, 'symmetric-heavy': 0.2, 'removal+extras': 0.12, 'two-residue': 0.1, 'extras-same-element': 0.06,
                  'extra-stands-in': 0.008, 'reordered': 0.4, 'heavy-renamed': 0.3, 'atoms-rebuilt': 0.2, 'input-disconnected': 0.1}),
 ]
+
+PARTS = PARTS + c04_isoshape.PARTS
+RULE = RULE + ' ' + c04_isoshape.RULE_TEXT
+
+_preload_main = preload
+
+
+def preload():   # noqa: F811
+    _preload_main()
+    c04_isoshape.preload()
